@@ -43,6 +43,9 @@ def run_program(files: dict, flags, approved, *, pyproject: str | None = PYPROJE
     _config, _problems, apply_all, DiscStorage, Flags, snapshot_env, ChangeRecorder = _imports()
     common.scrub_process_env()
     d = common.mkscratch("p")
+    import os
+    cwd0 = os.getcwd()
+    os.chdir(d)          # black looks for pyproject.toml from the current directory, as in a real session
     out: dict = {"R": None, "tests": [], "sites": [], "collect_errors": [], "apply_error": None,
                  "import_error": None, "files_after": {}, "problems": [], "warnings": []}
     try:
@@ -158,6 +161,7 @@ def run_program(files: dict, flags, approved, *, pyproject: str | None = PYPROJE
         if keep_dir:
             out["dir"] = str(d)
     finally:
+        os.chdir(cwd0)
         if not keep_dir:
             common.rmtree(d)
     return out
